@@ -124,6 +124,20 @@ func genC05(g *Gen) {
 			g.Emit(kind, params, interleave(s, qObs))
 		})
 	}
+	// bulk runs across the capacity thresholds of a growing slice
+	for _, kind := range []string{"queue", "lqueue"} {
+		for _, n := range bulkSizes(g.Thorough()) {
+			if !g.Mine() {
+				continue
+			}
+			var params []string
+			if kind == "lqueue" {
+				params = []string{"0"}
+			}
+			g.Emit(kind, params, bulkOps(func(i int) string { return "enqueue " + itoa(i%7-1) }, "dequeue",
+				[]string{"size", "peek", "search 0", "search 5"}, n))
+		}
+	}
 	// seeded long runs that repeatedly drain and refill, wider alphabet
 	n := 300
 	if g.Thorough() {
@@ -190,6 +204,19 @@ func genC06(g *Gen) {
 			}
 			g.Emit(kind, params, interleave(s, sObs))
 		})
+	}
+	for _, kind := range []string{"stack", "lstack"} {
+		for _, n := range bulkSizes(g.Thorough()) {
+			if !g.Mine() {
+				continue
+			}
+			var params []string
+			if kind == "lstack" {
+				params = []string{"0"}
+			}
+			g.Emit(kind, params, bulkOps(func(i int) string { return "push " + itoa(i%7-1) }, "pop",
+				[]string{"size", "peek", "search 0", "search 5"}, n))
+		}
 	}
 	n := 300
 	if g.Thorough() {
